@@ -328,6 +328,22 @@ PINF = ("(def (Report (volatile acked 0)) (cinf +infinity) (volatile vinf +infin
         "(when true (:= Report.acked (+ Report.acked Ack.bytes_acked)) (report))")
 
 
+PSHADOW = ("(def (Report (volatile acked 0)) (pacing 0) (Cwnd 10) (volatile Rate 3)) "
+           "(when true (:= Report.acked (+ Report.acked Cwnd)) (:= pacing (+ pacing Rate)) (report))")
+
+
+def shadowing_control_cases():
+    """a program may declare its OWN control named Cwnd or Rate (it shadows the built-in in its scope): updates then go to the
+    declared control register, as Scope::get says (round 6: a fast path answered the names Cwnd / Rate without looking at the scope)"""
+    for v in (0, 7, 2**32 - 1):
+        allf = ";".join("%s=%d" % (hx(n), max(0, v - k)) for k, n in enumerate(["Cwnd", "pacing", "Rate"]))
+        yield ("ALG - 1 PROGS p=%s NF sp:p:%s OR uf:%s SCRIPT 5:RD.1 5:CR.1.10.1460.1.2.3.4.- 5:MS.1.u:p.7 5:MS.1.u:p.-" % (hx(PSHADOW), allf, allf))
+        for n in ("Cwnd", "Rate"):
+            one = "%s=%d" % (hx(n), v)
+            yield ("ALG - 1 PROGS p=%s,q=%s NF sp:p:%s OR uf:%s,sp:q:%s,uf:%s SCRIPT 5:RD.1 5:CR.1.10.1460.1.2.3.4.- 5:MS.1.u:p.7 5:MS.1.u:q.7;9"
+                   % (hx(PSHADOW), hx(P1), one, one, one, one))
+
+
 def declared_kind_value_cases():
     """'values as asked' must not depend on how the control was DECLARED (round 5: a control declared +infinity and updated with
     exactly 2^32-1 was widened to 2^64-1): every kind of declared initial value x every boundary value, as set_program presets and
